@@ -60,8 +60,10 @@ class UserClass:
                     continue
                 if "property" in decs:
                     self.props[st.name] = UserFunc(module, st)
+                    self.props[st.name].owner_cls = self
                 else:
                     self.methods[st.name] = UserFunc(module, st)
+                    self.methods[st.name].owner_cls = self
 
 
     def link_bases(self, interp):
@@ -662,6 +664,9 @@ class Interp:
             if k not in params and k not in [p.arg for p in a.kwonlyargs]:
                 raise Raised("TypeError", f"unexpected keyword {k} for {fn.name}")
         saved = (st.env, st.brk, st.cont, st.ret, st.retval, getattr(st, "module", None), getattr(st, "closure", None))
+        if getattr(fn, "owner_cls", None) is not None and a.args:
+            env["__class__"] = fn.owner_cls     # as CPython's implicit cell: what zero-argument super() starts from
+            env["__self__"] = env.get(a.args[0].arg)
         st.env = env
         st.brk = st.cont = st.ret = False
         st.retval = None
@@ -1300,6 +1305,9 @@ class Interp:
             return v
         if n == "NotImplemented":
             return NOTIMPL
+        if n == "super" and "__class__" in st.env:
+            cls_, self_ = st.env["__class__"], st.env.get("__self__")
+            return self.lib.native(lambda it_, st_, *a: SuperProxy(self_, cls_))
         b = self.lib.BUILTINS.get(n)
         if b is not None:
             return b
@@ -1572,6 +1580,19 @@ class Interp:
 
     def getattr(self, st, base, attr):
         base = self.use(st, base)
+        if isinstance(base, SuperProxy):
+            for bn in base.cls.base_names:
+                b = base.cls.module.globals.get(bn)
+                b = self.resolve_lazy(b) if b is not None else None
+                if isinstance(b, UserClass):
+                    b.link_bases(self)
+                    if attr in b.methods:
+                        return BoundMethod(b.methods[attr], base.selfv)
+                    if attr in b.props:
+                        return self.call_function(st, b.props[attr], [base.selfv])
+            if attr == "__init__":
+                return self.lib.native(lambda it_, st_, *a, **k: None)
+            raise Raised("AttributeError", f"super().{attr}")
         if isinstance(base, ModuleRef):
             return self.lib.module_attr(self, base.name, attr)
         if isinstance(base, ModuleRefUser):
@@ -1793,6 +1814,8 @@ class Interp:
     def iter_values(self, st, v):
         if isinstance(v, (list, tuple)):
             return list(v)
+        if isinstance(v, dict):
+            return list(v.keys())
         if isinstance(v, Arr):
             if v.ndim == 1:
                 return self.arr_values(st, v)
@@ -1810,6 +1833,13 @@ class Interp:
 
     def carr_get(self, st, c, k):
         return self.lib.carr_get(self, st, c, k)
+
+
+class SuperProxy:
+    """Result of zero-argument super(): attribute lookup continues in the bases of the defining class."""
+
+    def __init__(self, selfv, cls):
+        self.selfv, self.cls = selfv, cls
 
 
 class Conflict:
